@@ -462,6 +462,9 @@ def _wavelet_array(f, inline, func):
 
 
 def _wavelet_center_compute(oshape, border=0, dtype=None, cval=0.0):
+    if border >= 2**40:
+        # larger borders overflow the int64 shape computation below (which then never terminates)
+        raise ValueError('mahotas.wavelet_center: border out of range')
     for c in range(1, 16+border):
         nshape = 2**(np.floor(np.log2(oshape))+c)
         nshape = nshape.astype(int, copy=False)
